@@ -123,8 +123,11 @@ MTVRP_MODEL = {
 MTVRP_INV = ["Ordered", "OpensAfterArrival", "Reachable", "CanReturn", "LimitOK", "ServiceRange", "Emit"]
 
 
-def model_cvrptw(tier, viol, samples, stats):
-    from rl4co.envs.routing.cvrptw.generator import CVRPTWGenerator
+def model_cvrptw(tier, recs, pin_cfgs, drift, samples, stats, notes):
+    """TLC on GenCVRPTW.tla; every emitted grid point replayed into the real CVRPTWGenerator with pinned draws.
+    The real outputs become records (judged by GenTrace.tla like every other generated instance, with an episode of the
+    real environment); a difference between the real window and the model's is MODEL-DRIFT, not a verdict."""
+    import rl4co.envs as E
 
     for ci, C in enumerate(CVRPTW_MODEL[tier]):
         wd, root = tlc.prepare("gencvrptw_%d" % ci, module="GenCVRPTW")
@@ -137,6 +140,9 @@ def model_cvrptw(tier, viol, samples, stats):
         if not r.violated and len(rows) * 6 != r.distinct:
             raise tlc.TLCError("GenCVRPTW: parsed %d emitted windows of %d states" % (len(rows), r.distinct))
         Q, M, T = int(C["Q"]), int(C["M"]), int(C["MaxTime"])
+        c = {"fam": "cvrptw", "env": "cvrptw", "gp": {"num_loc": 1, "max_time": T, "max_loc": 256.0}, "B": 0, "nb": 1,
+             "id": 10000 + ci, "pinned": "depot (0,0), customer (dist,0), draws ts_1 = u1, ts_2 = u2"}
+        pin_cfgs.append(c)
         ok_rows = [w for w in rows if not w[6]]
         if ok_rows:
             B = len(ok_rows)
@@ -146,40 +152,53 @@ def model_cvrptw(tier, viol, samples, stats):
             u2 = torch.zeros(B, 2)
             u1[:, 1] = torch.tensor([w[2] / M for w in ok_rows], dtype=torch.float32)
             u2[:, 1] = torch.tensor([w[3] / M for w in ok_rows], dtype=torch.float32)
-            gen = CVRPTWGenerator(num_loc=1, max_time=T, loc_sampler=PinLoc(locs))
-            with pinned_rand([u1, u2]) as left:
-                td = gen(B)
+            gp = dict(c["gp"])
+            gp["loc_sampler"] = PinLoc(locs)
+            env = E.CVRPTWEnv(generator_params=gp, check_solution=False)
+            torch.manual_seed(ci)
+            try:
+                with pinned_rand([u1, u2]) as left:
+                    td = env.generator(B)
+            except Exception as e:      # noqa: BLE001
+                if crash_site(e) is None:
+                    raise
+                notes.append("pinned CVRPTW replay: %s: %s" % (type(e).__name__, str(e)[:160]))
+                recs.append({"fam": "cvrptw", "cfg": c["id"], "crashed": True, "where": crash_site(e), "stage": "generate",
+                             "batch": 0, "roll": dict(NO_ROLL), "err": "%s: %s" % (type(e).__name__, str(e)[:200])})
+                continue
             if left:
                 raise tlc.TLCError("GenCVRPTW replay: the generator did not consume the pinned draws")
+            new = records_of_batch(c, env, td, 0, notes)
             tw = td["time_windows"][:, 1, :].tolist()
-            for w, (lo, hi) in zip(ok_rows, tw):
+            for w, (lo, hi), rec in zip(ok_rows, tw, new):
                 stats["replayed"] += 1
+                rec["pin"] = {"dist": w[1] / Q, "u1": w[2] / M, "u2": w[3] / M}
                 if (int(lo), int(hi)) != (w[4], w[5]):
-                    viol.append({"property": "C18", "env": "cvrptw", "monitor": "replay-window",
-                                 "inst": {"dist": w[1] / Q, "u1": w[2] / M, "u2": w[3] / M, "max_time": T},
-                                 "actions": [], "detail": "real generator emitted window (%s, %s), the model of its "
-                                 "own arithmetic (%s, %s)" % (lo, hi, w[4], w[5])})
+                    drift.append("CVRPTW window at dist=%s u1=%s u2=%s max_time=%s: real (%s, %s), model (%s, %s)"
+                                 % (w[1] / Q, w[2] / M, w[3] / M, T, lo, hi, w[4], w[5]))
+            recs += new
             samples.append({"model": "GenCVRPTW", "dist": ok_rows[-1][1] / Q, "u1": ok_rows[-1][2] / M,
                             "u2": ok_rows[-1][3] / M, "window_model": ok_rows[-1][4:6], "window_real": tw[-1]})
         for w in [w for w in rows if w[6]][:50]:        # grid points where the model says the generator raises
             locs = torch.zeros(1, 2, 2)
             locs[0, 1, 0] = w[1] / Q
-            gen = CVRPTWGenerator(num_loc=1, max_time=T, loc_sampler=PinLoc(locs))
+            gp = dict(c["gp"])
+            gp["loc_sampler"] = PinLoc(locs)
+            env = E.CVRPTWEnv(generator_params=gp, check_solution=False)
             stats["replayed"] += 1
             try:
                 with pinned_rand([torch.tensor([[0.0, w[2] / M]]), torch.tensor([[0.0, w[3] / M]])]):
-                    gen(1)
+                    env.generator(1)
                 raised = False
             except AssertionError:
                 raised = True
             if not raised:
-                viol.append({"property": "C18", "env": "cvrptw", "monitor": "replay-window",
-                             "inst": {"dist": w[1] / Q, "u1": w[2] / M, "u2": w[3] / M, "max_time": T}, "actions": [],
-                             "detail": "model: the generator's assertion fires; real generator: no exception"})
+                drift.append("CVRPTW at dist=%s u1=%s u2=%s: model says the generator's assertion fires, it does not"
+                             % (w[1] / Q, w[2] / M, w[3] / M))
 
 
-def model_mtvrp(tier, viol, samples, stats):
-    from rl4co.envs.routing.mtvrp.generator import MTVRPGenerator
+def model_mtvrp(tier, recs, pin_cfgs, drift, samples, stats, notes):
+    import rl4co.envs as E
 
     for ci, C in enumerate(MTVRP_MODEL[tier]):
         wd, root = tlc.prepare("genmtvrp_%d" % ci, module="GenMTVRP")
@@ -195,24 +214,39 @@ def model_mtvrp(tier, viol, samples, stats):
             continue
         G, T, L = int(C["G"]), int(C["T"]) / 1000.0, int(C["L"]) / 1000.0
         B = len(rows)
+        c = {"fam": "mtvrp", "env": "mtvrp", "B": B, "nb": 1, "id": 20000 + ci,
+             "gp": {"num_loc": 1, "variant_preset": "vrpltw", "max_time": T, "distance_limit": L},
+             "pinned": "depot (0,0), customer on the diagonal at distance dist, draws (service, length, start)"}
+        pin_cfgs.append(c)
         locs = torch.zeros(B, 2, 2)
-        locs[:, 1, 0] = torch.tensor([w[1] / 1000.0 for w in rows], dtype=torch.float32)
-        cols = [torch.tensor([[w[k] / G] for w in rows], dtype=torch.float32) for k in (2, 3, 4)]
-        gen = MTVRPGenerator(num_loc=1, variant_preset="all", max_time=T, distance_limit=L)
-        with pinned_rand(cols) as left:
-            tw, svc = gen.generate_time_windows(locs=locs, speed=torch.ones(B, 1))
+        locs[:, 1, :] = torch.tensor([w[1] / 1000.0 / math.sqrt(2.0) for w in rows], dtype=torch.float32)[:, None]
+        cols = [torch.ones(B, 1)] + [torch.tensor([[w[k] / G] for w in rows], dtype=torch.float32) for k in (2, 3, 4)]
+        env = E.MTVRPEnv(generator_params=dict(c["gp"]), check_solution=False)
+        env.generator.generate_locations = lambda batch_size, num_loc: locs.clone()      # harness-only pin
+        torch.manual_seed(ci)
+        try:
+            with pinned_rand(cols) as left:
+                td = env.generator(B)
+        except Exception as e:      # noqa: BLE001
+            if crash_site(e) is None:
+                raise
+            notes.append("pinned MTVRP replay: %s: %s" % (type(e).__name__, str(e)[:160]))
+            recs.append({"fam": "mtvrp", "cfg": c["id"], "crashed": True, "where": crash_site(e), "stage": "generate",
+                         "batch": 0, "roll": dict(NO_ROLL), "err": "%s: %s" % (type(e).__name__, str(e)[:200])})
+            continue
         if left:
-            raise tlc.TLCError("GenMTVRP replay: generate_time_windows did not consume the pinned draws")
-        lim = gen.generate_distance_limit(shape=(B, 1), locs=locs)
+            raise tlc.TLCError("GenMTVRP replay: the generator did not consume the pinned draws")
+        new = records_of_batch(c, env, td, 0, notes)
+        tw, svc, lim = td["time_windows"], td["service_time"], td["distance_limit"]
         for j, w in enumerate(rows):
             stats["replayed"] += 1
+            new[j]["pin"] = {"dist": w[1] / 1000.0, "draws": [w[2] / G, w[3] / G, w[4] / G]}
             exp = (w[7] / (1000.0 * G * G), (w[7] + w[6] * G) / (1000.0 * G * G), w[5] / (1000.0 * G))
             got = (float(tw[j, 1, 0]), float(tw[j, 1, 1]), float(svc[j, 1]))
-            depot_ok = float(tw[j, 0, 0]) == 0.0 and abs(float(tw[j, 0, 1]) - T) < 1e-6 and float(svc[j, 0]) == 0.0
-            if any(abs(a - b) > 2e-5 for a, b in zip(exp, got)) or not depot_ok or abs(float(lim[j, 0]) - L) > 1e-6:
-                viol.append({"property": "C18", "env": "mtvrp", "monitor": "replay-window",
-                             "inst": {"dist": w[1] / 1000.0, "draws": [w[2] / G, w[3] / G, w[4] / G]}, "actions": [],
-                             "detail": "real (tw_start, tw_end, service) %s, specification %s" % (got, exp)})
+            if any(abs(a - b) > 2e-5 for a, b in zip(exp, got)) or abs(float(lim[j, 0]) - L) > 1e-6:
+                drift.append("MTVRP window at dist=%s draws=%s: real (start, end, service) %s, model %s"
+                             % (w[1] / 1000.0, [w[2] / G, w[3] / G, w[4] / G], got, exp))
+        recs += new
         samples.append({"model": "GenMTVRP", "dist": rows[-1][1] / 1000.0, "draws": [rows[-1][k] / G for k in (2, 3, 4)],
                         "window_spec": list(exp[:2]), "window_real": list(got[:2])})
 
@@ -242,8 +276,8 @@ def configs(tier):
     q = tier == "quick"
     C = []
 
-    def add(fam, env, B=8, nb=1, **gp):
-        C.append({"fam": fam, "env": env, "gp": gp, "B": B, "nb": nb})
+    def add(fam, env, B=8, nb=1, cls="", **gp):
+        C.append({"fam": fam, "env": env, "gp": gp, "B": B, "nb": nb, "cls": cls})
 
     # --- TSP: sizes, bounds, every sampler of distribution_utils ---
     for n in ([5, 20] if q else [2, 5, 20, 37, 100]):
@@ -262,7 +296,11 @@ def configs(tier):
     # --- CVRP / SDVRP: table and off-table sizes, capacity override, demand range, depot samplers, bounds ---
     for n in ([10, 13, 20, 50] if q else [5, 10, 13, 15, 17, 20, 37, 50, 68, 100, 110, 200]):
         add("cvrp", "cvrp", B=8 if n <= 50 else 3, num_loc=n)
+    for n in ([35] if q else [35, 45, 175]):                 # equidistant from two tabulated sizes
+        add("cvrp", "cvrp", B=4, num_loc=n)
     add("cvrp", "cvrp", num_loc=10, capacity=15)
+    add("cvrp", "cvrp", num_loc=10, depot_distribution=0.5)            # constant sampler
+    add("cvrp", "cvrp", num_loc=6, capacity=10, min_demand=3, max_demand=3)
     add("cvrp", "cvrp", num_loc=12, capacity=10, min_demand=3, max_demand=10)
     add("cvrp", "cvrp", num_loc=10, min_demand=1, max_demand=5)
     add("cvrp", "cvrp", num_loc=10, depot_distribution="uniform")
@@ -368,6 +406,19 @@ def configs(tier):
     add("dpp", "mdpp", **dpp_params("syn4_chip.npy", num_keepout_min=1, num_keepout_max=4, max_decaps=3,
                                      num_probes_min=1, num_probes_max=3))
     add("dpp", "mdpp", B=4, data_dir=dflt)
+    # --- degenerate ranges (minimum = maximum): admitted by the documented parameters / the generators' own checks ---
+    dg = "degenerate-range"
+    add("fjsp", "fjsp", B=4, cls=dg, num_jobs=3, num_machines=3, min_processing_time=5, max_processing_time=5)
+    add("fjsp", "fjsp", B=4, num_jobs=3, num_machines=3, min_processing_time=5, max_processing_time=5, same_mean_per_op=False)
+    add("fjsp", "jssp", B=4, num_jobs=3, num_machines=3, min_processing_time=5, max_processing_time=5)
+    add("ffsp", "ffsp", B=4, cls=dg, min_time=3, max_time=3)
+    add("dpp", "dpp", cls=dg, **dpp_params("syn4_chip.npy", num_keepout_min=2, num_keepout_max=2, max_decaps=3))
+    add("dpp", "mdpp", cls=dg, **dpp_params("syn4_chip.npy", num_keepout_min=1, num_keepout_max=3, max_decaps=3,
+                                             num_probes_min=2, num_probes_max=2))
+    add("mtsp", "mtsp", num_loc=6, min_num_agents=2, max_num_agents=2)
+    add("smtwtp", "smtwtp", num_job=4, min_process_time=1, max_process_time=1)
+    add("atsp", "atsp", num_loc=4, min_dist=1.0, max_dist=1.0)
+    add("mtvrp", "mtvrp", num_loc=6, variant_preset="all", min_demand=2, max_demand=2)
     for i, c in enumerate(C):
         c["id"] = i
     return C
@@ -711,9 +762,9 @@ def rollout(env, td, B):
     """one uniformly random mask-confined episode per row (the whole batch stepped together, as rl4co's loops do)"""
     width = int(td["action_mask"].reshape(B, -1).shape[1])
     cap = 20 * width + 100
-    steps = [0] * B
-    minmask = [10 ** 6] * B
-    dead = [False] * B
+    steps = torch.zeros(B, dtype=torch.long)
+    minmask = torch.full((B,), 10 ** 6 - 1, dtype=torch.long)
+    dead = torch.zeros(B, dtype=torch.bool)
     n = 0
 
     def done_rows(t):
@@ -723,40 +774,76 @@ def rollout(env, td, B):
     while not bool(dn.all()) and n < cap:
         m = td["action_mask"].reshape(B, -1)
         cnt = m.sum(-1)
-        for r in range(B):
-            if not dn[r]:
-                minmask[r] = min(minmask[r], int(cnt[r]))
-                if int(cnt[r]) == 0:
-                    dead[r] = True
-        if any(dead):
+        minmask = torch.where(~dn, torch.minimum(minmask, cnt.long()), minmask)
+        dead = dead | (~dn & (cnt == 0))
+        if bool(dead.any()):
             break
         w = m.float().clone()
         w[cnt == 0, 0] = 1.0
         td.set("action", torch.multinomial(w, 1).squeeze(-1))
         td = env.step(td)["next"]
         n += 1
-        new = done_rows(td)
-        for r in range(B):
-            if not dn[r]:
-                steps[r] = n
-        dn = new
-    return [{"ran": True, "done": bool(dn[r]), "dead": dead[r], "raised": False, "hang": False, "steps": steps[r],
-             "cap": cap, "minmask": min(minmask[r], 10 ** 6 - 1)} for r in range(B)]
+        steps = torch.where(~dn, torch.full_like(steps, n), steps)
+        dn = done_rows(td)
+    return [{"ran": True, "done": bool(dn[r]), "dead": bool(dead[r]), "raised": False, "hang": False,
+             "steps": int(steps[r]), "cap": cap, "minmask": int(minmask[r])} for r in range(B)]
+
+
+def records_of_batch(c, env, td0, b, notes, episodes=True):
+    """the records of one generated batch (+ one random episode per row of the real environment)"""
+    B = td0.shape[0]
+    common = {"fam": c["fam"], "cfg": c["id"], "crashed": False, "where": "", "keys": sorted(td0.keys()),
+              "shp": shapes(td0), "batch": b}
+    exp = expected_dims(c, env)
+    try:
+        S, rows, fin = EXTRACT[c["fam"]](td0, c["gp"], c["env"])
+        finite = all(bool(torch.isfinite(t.double()).all()) for t in fin)
+        ok = all(row.get(k) == v for row in rows for k, v in exp.items())
+        if not ok:
+            notes.append("cfg %d %s: emitted dimensions differ from the requested %s" % (c["id"], c["env"], exp))
+    except (KeyError, IndexError, RuntimeError, ValueError, TypeError, OverflowError) as e:
+        notes.append("cfg %d %s: unreadable output (%s: %s)" % (c["id"], c["env"], type(e).__name__, str(e)[:120]))
+        S, rows, finite, ok = S6, [{} for _ in range(B)], False, False
+    if not ok or not finite:
+        rows = [{} for _ in range(B)]
+    rolls = [dict(NO_ROLL) for _ in range(B)]
+    if ok and finite and episodes:
+        try:
+            td = env.reset(td0.clone())
+            with wall_guard(300):
+                rolls = rollout(env, td, B)
+        except _Timeout:
+            rolls[0].update({"ran": True, "hang": True})
+        except Exception as e:      # noqa: BLE001
+            where = crash_site(e)
+            if where is None:
+                raise
+            notes.append("cfg %d %s episode: %s at %s: %s" % (c["id"], c["env"], type(e).__name__, where, str(e)[:160]))
+            rolls[0].update({"ran": True, "raised": True})
+            common["where"] = where
+            common["err"] = "%s: %s" % (type(e).__name__, str(e)[:200])
+    recs = []
+    for r in range(B):
+        rec = dict(common)
+        rec.update(rows[r])
+        rec.update(exp)
+        rec.update({"U": S, "ok": ok, "finite": bool(finite) if ok else False, "row": r, "roll": rolls[r]})
+        recs.append(rec)
+    return recs
 
 
 def record_config(c, seed, notes):
     """all records of one configuration; library exceptions become `crashed` / `roll.raised` records"""
     recs = []
-    base = {"fam": c["fam"], "cfg": c["id"], "crashed": False, "where": "", "roll": dict(NO_ROLL)}
 
     def crashed(e, stage, b):
         where = crash_site(e)
         if where is None:
             raise e
         notes.append("cfg %d %s %s: %s at %s: %s" % (c["id"], c["env"], stage, type(e).__name__, where, str(e)[:160]))
-        r = dict(base)
-        r.update({"crashed": True, "where": where, "stage": stage, "batch": b, "err": "%s: %s" % (type(e).__name__, str(e)[:200])})
-        return r
+        return {"fam": c["fam"], "cfg": c["id"], "crashed": True, "where": where, "stage": stage, "batch": b,
+                "tseed": seed * 100003 + c["id"] * 101 + max(b, 0), "roll": dict(NO_ROLL),
+                "err": "%s: %s" % (type(e).__name__, str(e)[:200])}
 
     try:
         env = make_env(c)
@@ -771,42 +858,10 @@ def record_config(c, seed, notes):
         except Exception as e:      # noqa: BLE001
             recs.append(crashed(e, "generate", b))
             continue
-        B = td0.shape[0]
-        common = dict(base)
-        common.update({"keys": sorted(td0.keys()), "shp": shapes(td0), "batch": b})
-        exp = expected_dims(c, env)
-        try:
-            S, rows, fin = EXTRACT[c["fam"]](td0, c["gp"], c["env"])
-            finite = all(bool(torch.isfinite(t.double()).all()) for t in fin)
-            ok = all(row.get(k) == v for row in rows for k, v in exp.items())
-            if not ok:
-                notes.append("cfg %d %s: emitted dimensions differ from the requested %s" % (c["id"], c["env"], exp))
-        except (KeyError, IndexError, RuntimeError, ValueError, TypeError, OverflowError) as e:
-            notes.append("cfg %d %s: unreadable output (%s: %s)" % (c["id"], c["env"], type(e).__name__, str(e)[:120]))
-            S, rows, finite, ok = S6, [{} for _ in range(B)], False, False
-        if not ok or not finite:
-            rows = [{} for _ in range(B)]
-        rolls = [dict(NO_ROLL) for _ in range(B)]
-        if ok and finite:
-            try:
-                td = env.reset(td0.clone())
-                with wall_guard(300):
-                    rolls = rollout(env, td, B)
-            except _Timeout:
-                rolls[0].update({"ran": True, "hang": True})
-            except Exception as e:      # noqa: BLE001
-                where = crash_site(e)
-                if where is None:
-                    raise
-                notes.append("cfg %d %s episode: %s at %s: %s" % (c["id"], c["env"], type(e).__name__, where, str(e)[:160]))
-                rolls[0].update({"ran": True, "raised": True})
-                common["where"] = where
-        for r in range(B):
-            rec = dict(common)
-            rec.update(rows[r])
-            rec.update(exp)
-            rec.update({"U": S, "ok": ok, "finite": bool(finite) if ok else False, "row": r, "roll": rolls[r]})
-            recs.append(rec)
+        new = records_of_batch(c, env, td0, b, notes)
+        for rec in new:
+            rec["tseed"] = s
+        recs += new
     return recs
 
 
@@ -819,39 +874,43 @@ def run(tier, seed):
     import rl4co.envs  # noqa: F401  (also switches off torch.distributions argument validation, as for every user)
 
     torch.set_num_threads(2)
-    viol, samples, notes = [], [], []
+    viol, samples, notes, drift, pin_cfgs, recs = [], [], [], [], [], []
     stats = {"states": 0, "transitions": 0, "replayed": 0, "model_violated": []}
-    model_cvrptw(tier, viol, samples, stats)
-    model_mtvrp(tier, viol, samples, stats)
+    model_cvrptw(tier, recs, pin_cfgs, drift, samples, stats, notes)
+    model_mtvrp(tier, recs, pin_cfgs, drift, samples, stats, notes)
     t_model = time.time() - t0
+    n_pinned = len(recs)
     # ---- recorded generator outputs ----
     cfgs = configs(tier)
-    recs = []
-    nrep = 1 if tier == "quick" else 3
+    nrep = 2 if tier == "quick" else 5
     for rep in range(nrep):
         for c in cfgs:
             recs += record_config(c, seed + 7919 * rep, notes)
     t_rec = time.time() - t0 - t_model
     fails, _, st, _ = validate_records("GenTrace", recs, TRACE_INV, "c18", shards=16, per_shard=250)
-    fam_of = {c["id"]: c for c in cfgs}
-    seen = set()
+    fam_of = {c["id"]: c for c in cfgs + pin_cfgs}
+    seen = {}
     for f in fails:
         rec = recs[f[0]]
         c = fam_of[rec["cfg"]]
-        key = (rec["cfg"], rec.get("batch"), f[1]) if f[1] in ("generator-raised", "episode-raised") else (f[0], f[1])
-        if key in seen:
+        key = (rec["cfg"], f[1])
+        seen[key] = seen.get(key, 0) + 1
+        if seen[key] > 3:              # three witnesses per configuration and clause are enough
             continue
-        seen.add(key)
-        inst = {"generator_params": c["gp"], "batch_size": c["B"], "torch_seed": seed, "batch": rec.get("batch"),
-                "row": rec.get("row")}
-        for k in ("N", "cap", "dem", "dep", "lo", "hi", "tws", "twe", "d0", "H", "preset", "open", "lim", "K", "shp",
+        inst = {"generator_params": c["gp"], "batch_size": c["B"], "torch_manual_seed": rec.get("tseed"),
+                "batch": rec.get("batch"), "row": rec.get("row")}
+        for k in ("pin", "N", "cap", "dem", "dep", "lo", "hi", "tws", "twe", "d0", "H", "preset", "open", "lim", "K", "shp",
                   "where", "err", "stage"):
             if k in rec:
                 inst[k] = rec[k]
-        viol.append({"property": "C18", "env": c["env"], "monitor": f[1], "inst": inst, "actions": [],
+        if c.get("pinned"):
+            inst["pinned"] = c["pinned"]
+        viol.append({"property": "C18", "env": c["env"], "monitor": f[1], "cls": c.get("cls", ""), "inst": inst, "actions": [],
                      "detail": "%s generator, configuration %s: clause '%s' of Generators.tla fails%s"
                                % (c["env"], c["gp"], f[1], (" -- " + rec["err"] + " at " + rec["where"]) if rec.get("err") else
                                   (" -- roll %s" % rec["roll"] if rec["roll"]["ran"] else ""))})
+    for d in drift[:5]:
+        print("MODEL-DRIFT C18: %s" % d)
     if stats["model_violated"]:
         print("MODEL-DRIFT C18: the generator models violate their own invariants %s" % stats["model_violated"])
     for n in notes[:10]:
@@ -864,8 +923,8 @@ def run(tier, seed):
     if okrec:
         samples.append({"recorded_instance": {k: okrec[k] for k in ("fam", "N", "cap", "dem", "tws", "twe", "d0", "H", "roll")}})
     cov = {"states": stats["states"] + st, "transitions": stats["transitions"],
-           "traces_validated_against_impl": stats["replayed"] + len(recs), "samples": samples[:6], "exhaustive": True,
-           "replayed_grid_points": stats["replayed"], "recorded_instances": len(recs), "configurations": len(cfgs),
+           "traces_validated_against_impl": len(recs), "samples": samples[:6], "exhaustive": True,
+           "replayed_grid_points": stats["replayed"], "recorded_instances": len(recs) - n_pinned, "model_drift": len(drift), "configurations": len(cfgs),
            "episodes_run": sum(1 for r in recs if r["roll"]["ran"]), "instances_per_family": per_fam,
            "model_constants": {"GenCVRPTW": CVRPTW_MODEL[tier], "GenMTVRP": MTVRP_MODEL[tier]},
            "wall_model_s": round(t_model, 1), "wall_record_s": round(t_rec, 1), "notes": notes[:20],
